@@ -65,6 +65,12 @@ class ScriptedInput:
         self.delivered += out
         return out
 
+    def readinto(self, b):
+        """As io.BufferedReader / BytesIO offer it; returns short counts like read()."""
+        data = self.read(len(b))
+        b[:len(data)] = data
+        return len(data)
+
     def readline(self, size=-1):  # pragma: no cover - not used by baize
         raise NotImplementedError
 
@@ -131,7 +137,14 @@ def to_messages(req, disconnect_at=None):
         if disconnect_at is not None and i == disconnect_at:
             msgs.append({"type": "http.disconnect"})
             return msgs
-        msgs.append({"type": "http.request", "body": c, "more_body": i < len(chunks) - 1})
+        m = {"type": "http.request", "body": c, "more_body": i < len(chunks) - 1}
+        if i == len(chunks) - 1 and len(c) % 2 == 0:
+            # both keys are optional in ASGI (body defaults to b"", more_body to False): the last message of every other body
+            # makes use of that
+            del m["more_body"]
+            if c == b"":
+                del m["body"]
+        msgs.append(m)
     return msgs
 
 
